@@ -68,6 +68,7 @@ use helpers::case_style::{CaseStyle, CaseStyleHelpers};
 use std::collections::BTreeSet;
 use std::str::FromStr;
 use syn::visit::Visit;
+use quote::ToTokens;
 use syn::DeriveInput;
 
 fn unhex(s: &str) -> String {
@@ -583,6 +584,99 @@ fn struct_match_arms(ast: &DeriveInput, ts: proc_macro2::TokenStream, trait_name
     Err("impl not found".into())
 }
 
+
+// ---------------------------------------------------------------------------------------------------
+// FromRepr: `from_repr_inner` parses a proc_macro::TokenStream and cannot run outside a real expansion, so the tokens come from
+// the REAL expansion of the corpus crate (`rustc -Zunpretty=expanded`): the impl block is cut out by the harness and read here
+// into the shape of Model/ReprProg.v: the constant chain (zero | prev | own) and the guarded arms.
+// ---------------------------------------------------------------------------------------------------
+fn norm_tokens(e: &syn::Expr) -> String {
+    let mut e = e;
+    loop { match e { syn::Expr::Paren(p) => e = &p.expr, syn::Expr::Group(g) => e = &g.expr, _ => break } }
+    e.to_token_stream().to_string().replace(' ', "")
+}
+fn struct_from_repr(ast: &DeriveInput, imp: &syn::ItemImpl) -> Result<String, String> {
+    let variants: Vec<&syn::Variant> = match &ast.data { syn::Data::Enum(e) => e.variants.iter().collect(), _ => return Err("not an enum".into()) };
+    let f = imp.items.iter().find_map(|i| if let syn::ImplItem::Fn(f) = i { if f.sig.ident == "from_repr" { Some(f) } else { None } } else { None })
+        .ok_or("no fn from_repr in the impl block")?;
+    if f.sig.inputs.len() != 1 { return Err("from_repr does not take exactly one parameter".into()); }
+    let (param, ty) = match f.sig.inputs.first() {
+        Some(syn::FnArg::Typed(pt)) => (match &*pt.pat { syn::Pat::Ident(i) => i.ident.to_string(), _ => return Err("parameter pattern".into()) },
+                                        pt.ty.to_token_stream().to_string().replace(' ', "")),
+        _ => return Err("receiver parameter".into()) };
+    let mut names: Vec<String> = Vec::new();
+    let mut consts: Vec<String> = Vec::new();
+    let mut the_match: Option<&syn::ExprMatch> = None;
+    for st in &f.block.stmts {
+        match st {
+            syn::Stmt::Item(syn::Item::Const(c)) => {
+                if the_match.is_some() { return Err("a constant after the match".into()); }
+                let cty = c.ty.to_token_stream().to_string().replace(' ', "");
+                if cty != ty { return Err(format!("constant {} has type {} (parameter: {})", c.ident, cty, ty)); }
+                let i = names.len();
+                let own = variants.get(i).and_then(|v| v.discriminant.as_ref());
+                let kind = match (&*c.expr, own) {
+                    (e, Some((_, own))) => if norm_tokens(own) == norm_tokens(e) { "own".to_string() } else { format!("?{}", hex(&norm_tokens(e))) },
+                    (syn::Expr::Lit(l), None) if l.to_token_stream().to_string() == "0" => "zero".to_string(),
+                    (syn::Expr::Binary(b), None) if matches!(b.op, syn::BinOp::Add(_))
+                        && matches!(&*b.left, syn::Expr::Path(p) if i > 0 && p.path.is_ident(&names[i - 1]))
+                        && matches!(&*b.right, syn::Expr::Lit(l) if l.to_token_stream().to_string() == "1") => "prev".to_string(),
+                    (e, None) => format!("?{}", hex(&norm_tokens(e))),
+                };
+                // the constant is named after the variant at the same position
+                let want = variants.get(i).map(|v| format!("{}_DISCRIMINANT", v.ident));
+                if want.as_deref() != Some(&c.ident.to_string()) { return Err(format!("constant {} at position {} is not named after that variant", c.ident, i)); }
+                names.push(c.ident.to_string());
+                consts.push(kind);
+            }
+            syn::Stmt::Expr(syn::Expr::Match(m), None) => { if the_match.is_some() { return Err("two matches".into()); } the_match = Some(m); }
+            _ => return Err("a statement that is neither a constant nor the final match".into()),
+        }
+    }
+    let m = the_match.ok_or("no match expression")?;
+    if !matches!(&*m.expr, syn::Expr::Path(p) if p.path.is_ident(&param)) { return Err("the match does not scrutinise the parameter".into()); }
+    let mut arms: Vec<String> = Vec::new();
+    let mut wild: Option<String> = None;
+    for arm in &m.arms {
+        if wild.is_some() { return Err("an arm after the wildcard".into()); }
+        match &arm.pat {
+            syn::Pat::Wild(_) => {
+                if arm.guard.is_some() { return Err("guarded wildcard".into()); }
+                wild = Some(if is_none_expr(&arm.body) { "none".to_string() } else { format!("?{}", hex(&norm_tokens(&arm.body))) });
+            }
+            syn::Pat::Ident(pi) if pi.subpat.is_none() => {
+                let g = arm.guard.as_ref().ok_or("binding arm without a guard")?;
+                let ci = match &*g.1 {
+                    syn::Expr::Binary(b) if matches!(b.op, syn::BinOp::Eq(_)) && matches!(&*b.left, syn::Expr::Path(p) if p.path.is_ident(&pi.ident)) => {
+                        match &*b.right { syn::Expr::Path(p) => { let id = p.path.get_ident().ok_or("guard compares with a path")?.to_string();
+                                                                  names.iter().position(|n| *n == id).ok_or("guard names an unknown constant")? }
+                                          _ => return Err("guard does not compare with a constant".into()) }
+                    }
+                    _ => return Err("unrecognised guard".into()),
+                };
+                let inner = strip_result(&arm.body, "Some").ok_or("arm body is not Some(..)")?;
+                let (vid, n) = match &inner {
+                    syn::Expr::Path(p) => (p.path.segments.last().ok_or("empty path")?.ident.clone(), 0),
+                    syn::Expr::Call(c) => {
+                        let id = match &*c.func { syn::Expr::Path(p) => p.path.segments.last().ok_or("empty path")?.ident.clone(), _ => return Err("call of a non-path".into()) };
+                        for a in c.args.iter() { if param_of(a)? != "d" { return Err("a payload that is not Default::default()".into()); } }
+                        (id, c.args.len())
+                    }
+                    syn::Expr::Struct(stx) => {
+                        for fv in stx.fields.iter() { if param_of(&fv.expr)? != "d" { return Err("a payload that is not Default::default()".into()); } }
+                        (stx.path.segments.last().ok_or("empty path")?.ident.clone(), stx.fields.len())
+                    }
+                    _ => return Err("unrecognised arm body".into()),
+                };
+                arms.push(format!("c{}:v{}:{}", ci, variant_index(ast, &vid).ok_or("unknown variant")?, n));
+            }
+            _ => return Err("unrecognised arm pattern".into()),
+        }
+    }
+    Ok(format!("ty={}|constfn={}|consts=[{}]|arms=[{}]|wild={}", ty, if f.sig.constness.is_some() { 1 } else { 0 },
+               consts.join(";"), arms.join(";"), wild.unwrap_or_else(|| "missing".to_string())))
+}
+
 fn fnv(h: &mut u64, s: &str) { for b in s.bytes() { *h ^= b as u64; *h = h.wrapping_mul(0x100000001b3); } *h ^= 10; *h = h.wrapping_mul(0x100000001b3); }
 
 fn valid_ident(s: &str) -> bool {
@@ -675,6 +769,17 @@ fn main() {
                             },
                         }
                     }
+                }
+            }
+            "structfr" => {
+                // structfr <n> <item source hex> <impl block source hex, cut out of the real expansion>
+                let src = unhex(parts[2]);
+                let imp = unhex(parts[3]);
+                match (syn::parse_str::<DeriveInput>(&src), syn::parse_str::<syn::ItemImpl>(&imp)) {
+                    (Err(e), _) => format!("HARNESS-ITEM-DOES-NOT-PARSE:{}", hex(&e.to_string())),
+                    (_, Err(e)) => format!("unparsed:impl block does not parse: {}", e),
+                    (Ok(ast), Ok(imp)) => match std::panic::catch_unwind(std::panic::AssertUnwindSafe(|| struct_from_repr(&ast, &imp))) {
+                        Ok(Ok(s)) => s, Ok(Err(m)) => format!("unparsed:{}", m), Err(_) => "unparsed:panic in the token reader".to_string() },
                 }
             }
             "expand" | "refs" => {
